@@ -169,9 +169,16 @@ def run(chk: Check):
     # _disks[diskId] = references[fileRef]
     st = [n for n in ast.walk(ictx.func) if isinstance(n, ast.Assign) and isinstance(n.targets[0], ast.Subscript) and "_disks" in ast.unparse(n.targets[0])]
     okm = False
+    refs_t = R.self_attr(oci.key, "references")
     if st:
         v = R.expr(ictx, st[0].value, ictx.cfg.node_of[st[0]])
-        okm = v[0] == "sub" and v[1] == R.self_attr(oci.key, "references") and "fileRef" in S.show(v[2])
+        okm = v[0] == "sub" and v[1] == refs_t and "fileRef" in S.show(v[2])
+    else:
+        # the table built by a dict comprehension: {diskId: references[fileRef] for disk in ...}
+        dt = R.self_attr(oci.key, "_disks")
+        if dt[0] == "comp" and dt[1] == "dict" and dt[2][0] == "tuple" and len(dt[2][1]) == 2:
+            k_, v = dt[2][1]
+            okm = v[0] == "sub" and v[1] == refs_t and "fileRef" in S.show(v[2]) and "diskId" in S.show(k_)
     chk.decide(ok_key and okm, "K-PROV", "ovf:disk-to-file", st[0] if st else ictx.func, "disk id -> href of the file the disk references")
     dctx = chk.func(OVF, "OVF.disks")
     ovf_host_resources(chk, dctx, oci)
@@ -336,7 +343,10 @@ def vmx_grouping(chk: Check, dctx):
                 val = S.Valuation(1, override=ov)
                 try:
                     if eval_conds(conds, val):
-                        hits.append(tuple(S._key(S.ev(k, val)) for k in keys))
+                        kv = tuple(S._key(S.ev(k, val)) for k in keys)
+                        if not all(isinstance(x, str) for x in kv):
+                            opaque = True  # a key that does not evaluate to text: something in it is not interpreted
+                        hits.append(kv)
                 except S.EvalError:
                     opaque = True
         got[name] = hits
